@@ -118,7 +118,7 @@ func c10Shard(t Tier, shard, nshards int) (run *report.Run) {
 	if t.Thorough {
 		maxLen = 3
 	}
-	dl := deadline(t, 100*time.Second, 20*time.Minute)
+	dl := deadline(t, 140*time.Second, 20*time.Minute)
 	cases := buildShard(e, maxLen, shard, nshards)
 	cases = append(cases, upgradeCases(e, shard, nshards)...) // histories containing an in-process software upgrade
 	cases = append(cases, longCases(e, shard, nshards)...)
